@@ -332,7 +332,7 @@ def build(tag, verbose=False, jobs=16, kissel=False):
 
     def cc_lib(f):
         o = os.path.join(odir, f[:-2] + ".o")
-        sh([CLANG] + BASE + SAN + COV + ["-w"] + inc + ["-c", os.path.join(REPO, "src", f), "-o", o])
+        sh([CLANG] + BASE + SAN + COV + ["-w", "-include", os.path.join(SIM, "xs_atomics.h")] + inc + ["-c", os.path.join(REPO, "src", f), "-o", o])
         return o
 
     with cf.ThreadPoolExecutor(jobs) as ex:
